@@ -265,6 +265,8 @@ func (s *session) tLen(level int) int {
 
 // Set current version to v.
 func (s *session) setVersion(r *sessionRecord, v *version) {
+	verifYield(9)
+	verifEvent(12, uint64(v.id), 0, 0)
 	s.vmu.Lock()
 	defer s.vmu.Unlock()
 	// Hold by session. It is important to call this first before releasing
